@@ -516,27 +516,29 @@ fn generator_draws(k: usize, sink: &Sink) -> Result<(u64, u64, u64), String> {
 /// assignments of kinds to squares) such that key(Q on d4 + T_i) = key(Q on d4) xor 2^i (checked on
 /// real boards).  One generator is asked about the base arrangement and then about all the
 /// others, a second one the other way round; every answer is compared with the ray-walking model.
-pub fn near_key_arrangements(owner: &str, sink: &Sink, rep: &mut Report) {
-    const BASE_SQ: u8 = 27; // d4
-    let key_of = |pieces: &[(Kind, Side, u8)]| -> u64 {
-        let mut b = Board::new();
-        for &(k, sd, q) in pieces {
-            b.put(bb(q), piece_of(k), color_of(sd)).unwrap();
-        }
-        b.current_position_hash()
-    };
+fn key_of_pieces(pieces: &[(Kind, Side, u8)]) -> u64 {
+    let mut b = Board::new();
+    for &(k, sd, q) in pieces {
+        b.put(bb(q), piece_of(k), color_of(sd)).unwrap();
+    }
+    b.current_position_hash()
+}
+
+/// for every key bit, an arrangement = `base` + extra pieces (none on the squares of `base`)
+/// whose key differs from the key of `base` in exactly that bit (None where none was found)
+fn near_key_solutions(base: &[(Kind, Side, u8)], accept: &dyn Fn(&[(Kind, Side, u8)]) -> bool) -> Vec<Option<Vec<(Kind, Side, u8)>>> {
+    let key_of = key_of_pieces;
     let h0 = key_of(&[]);
-    let base = [(Kind::Queen, Side::White, BASE_SQ)];
-    let hbase = key_of(&base);
+    let hbase = key_of(base);
     let kinds: Vec<(Kind, Side)> = [Side::White, Side::Black].iter().flat_map(|sd| [Kind::Pawn, Kind::Knight, Kind::Bishop, Kind::Rook, Kind::Queen].into_iter().map(move |k| (k, *sd))).collect();
     let mut solved: Vec<Option<Vec<(Kind, Side, u8)>>> = vec![None; 64];
-    for round in 0..40usize {
+    for round in 0..60usize {
         if solved.iter().all(|x| x.is_some()) {
             break;
         }
         // one candidate piece per free square
         let cand: Vec<(Kind, Side, u8)> = (0..64u8)
-            .filter(|q| *q != BASE_SQ)
+            .filter(|q| !base.iter().any(|b| b.2 == *q))
             .map(|q| {
                 // fixed pseudo-random assignment of kinds to squares, different in every round
                 let mix = (q as u64 + 1).wrapping_mul(0x9E3779B97F4A7C15).wrapping_add((round as u64 + 1).wrapping_mul(0xD1B54A32D192ED03));
@@ -589,12 +591,19 @@ pub fn near_key_arrangements(owner: &str, sink: &Sink, rep: &mut Report) {
                 all.extend(extra.iter().copied());
                 // the construction is checked on real boards; if the key were not an XOR of
                 // per-piece constants this would simply not hold and the bit stays uncovered
-                if key_of(&all) ^ hbase == 1u64 << bit {
+                if key_of(&all) ^ hbase == 1u64 << bit && accept(&all) {
                     solved[bit] = Some(all);
                 }
             }
         }
     }
+    solved
+}
+
+pub fn near_key_arrangements(owner: &str, sink: &Sink, rep: &mut Report) {
+    const BASE_SQ: u8 = 27; // d4
+    let base = [(Kind::Queen, Side::White, BASE_SQ)];
+    let solved = near_key_solutions(&base, &|_| true);
     let covered = solved.iter().filter(|x| x.is_some()).count() as u64;
     rep.add("near_key_bits_covered", covered);
     if covered < 64 {
@@ -644,4 +653,52 @@ pub fn near_key_arrangements(owner: &str, sink: &Sink, rep: &mut Report) {
     }
     rep.add("near_key_attack_queries", asked);
     rep.transitions += asked;
+    if owner != "C02" {
+        return;
+    }
+    // the same for the move lists (C02): both kings on the board, the arrangement a consistent
+    // position for the colour that is asked
+    let mut covered_moves = 0u64;
+    let mut move_queries = 0u64;
+    for stm in [Side::White, Side::Black] {
+        let kbase = [(Kind::Queen, Side::White, BASE_SQ), (Kind::King, Side::White, 0u8), (Kind::King, Side::Black, 55u8)];
+        let consistent = |pieces: &[(Kind, Side, u8)]| {
+            let mut p = to_pos(pieces);
+            p.stm = stm;
+            p.is_consistent()
+        };
+        let sols = near_key_solutions(&kbase, &consistent);
+        let list: Vec<(usize, Vec<(Kind, Side, u8)>)> = sols.iter().enumerate().filter_map(|(i, x)| x.clone().map(|v| (i, v))).collect();
+        covered_moves += list.len() as u64;
+        for order in ["base first", "base last"] {
+            let mut g = MoveGenerator::new();
+            let mut seq: Vec<(Option<usize>, Vec<(Kind, Side, u8)>)> = list.iter().map(|(i, v)| (Some(*i), v.clone())).collect();
+            if order == "base first" {
+                seq.insert(0, (None, kbase.to_vec()));
+            } else {
+                seq.push((None, kbase.to_vec()));
+            }
+            for (bit, pieces) in seq.iter() {
+                let mut p = to_pos(pieces);
+                p.stm = stm;
+                let mut b = build_board(&p);
+                move_queries += 1;
+                let mut want: Vec<MoveDesc> = p.legal_moves().iter().map(describe_model).collect();
+                want.sort();
+                match guarded(|| g.generate_moves(&mut b, color_of(stm))) {
+                    Ok(ms) => {
+                        let mut got: Vec<MoveDesc> = ms.iter().map(describe_impl).collect();
+                        got.sort();
+                        if got != want {
+                            sink.push(Violation { prop: "C02".into(), class: "move-list-of-a-position-with-a-nearby-key".into(), seed: p.to_fen(), path: vec![], detail: format!("one generator asked about positions whose keys differ from the key of [{}] in exactly one bit ({}): for {} (bit {:?}) it lists {} moves, the rules give {}", describe(&kbase), order, p.to_fen(), bit, got.len(), want.len()), extra: json!({"kind": "c11-nearkey"}) });
+                        }
+                    }
+                    Err(e) => sink.push(Violation { prop: "C02".into(), class: "panic-in-generate_moves(near-key)".into(), seed: p.to_fen(), path: vec![], detail: e, extra: json!({"kind": "c11-nearkey"}) }),
+                }
+            }
+        }
+    }
+    rep.add("near_key_move_list_queries", move_queries);
+    rep.add("near_key_bits_covered_for_move_lists_(both_colours)", covered_moves);
+    rep.transitions += move_queries;
 }
